@@ -61,6 +61,15 @@ func (pConn *PFCPConn) HandlePFCPMsg(buf []byte) {
 		err   error
 	)
 
+	// A panic while decoding or handling one datagram (the PFCP decoders do not validate
+	// every embedded length) must not take down the agent and every other association
+	// with it: log it and drop the datagram.
+	defer func() {
+		if r := recover(); r != nil {
+			logger.PfcpLog.Errorf("dropping PFCP message from %v that could not be handled: %v", pConn.RemoteAddr(), r)
+		}
+	}()
+
 	msg, err := message.Parse(buf)
 	if err != nil {
 		logger.PfcpLog.Errorf("ignoring undecodable message: %v, error: %v", buf, err)
